@@ -15,8 +15,9 @@ VERIF = os.path.dirname(os.path.dirname(os.path.abspath(__file__)))
 VF = os.path.join(VERIF, 'vf')
 REPO = os.environ.get('VERIF_REPO', '/repo')
 LIB = os.path.join(REPO, 'CPP', 'Clipper2Lib')
-BUILD = os.path.join(VERIF, 'build')
-REPLAYDIR = os.path.join(VERIF, 'replay')
+BUILD = os.environ.get('VERIF_BUILD', os.path.join(VERIF, 'build'))
+REPLAYDIR = os.environ.get('VERIF_REPLAY', os.path.join(VERIF, 'replay'))
+EVIDENCEDIR = os.environ.get('VERIF_EVIDENCE', os.path.join(VERIF, 'evidence'))
 GUARD = 'ANGUSJOHNSON_CLIPPER2_VERIF'
 MEM_LIMIT = 24 << 30
 
@@ -222,8 +223,11 @@ def build_replay_cpp_san(o, info):
     if os.path.exists(exe) and os.path.getmtime(exe) >= os.path.getmtime(info['sll']):
         return exe
     flags = [f for f in CLANG_FLAGS if f not in ('-S', '-emit-llvm', '-O0', '-Xclang', '-disable-O0-optnone')]
-    r = sh(['clang++-14', '-O0', '-g', '-fsanitize=address,undefined', '-fno-sanitize-recover=all'] + flags + ['-D%s' % x for x in o.defs] +
-           [src, '-x', 'c', os.path.join(VF, 'rt_native.c'), '-o', exe, '-rdynamic', '-ldl', '-lm'])
+    rto = os.path.join(info['dir'], 'rt_san.o')
+    r = sh(['clang-14', '-O0', '-w', '-c', os.path.join(VF, 'rt_native.c'), '-o', rto])
+    if r.returncode == 0:
+        r = sh(['clang++-14', '-O0', '-g', '-fsanitize=address,undefined', '-fno-sanitize-recover=all'] + flags + ['-D%s' % x for x in o.defs] +
+               [src, rto, '-o', exe, '-rdynamic', '-ldl', '-lm'])
     if r.returncode != 0:
         raise BuildError('sanitizer replay build failed:\n' + r.stdout[-3000:])
     return exe
@@ -272,7 +276,8 @@ def run_cbmc_once(o, info, backend, witness, timeout, outdir, cancel=None):
         env['PATH'] = os.path.join(VF, 'shim') + ':' + env['PATH']
     t0 = time.time()
     with open(outfile, 'w') as f:
-        p = subprocess.Popen(cmd, stdout=f, stderr=subprocess.STDOUT, env=env, preexec_fn=_limits)
+        wrapped = ['bash', '-c', 'set -o pipefail; "$@" 2>&1 | grep -v "^Unwinding \\(loop\\|recursion\\)"', 'vf'] + cmd
+        p = subprocess.Popen(wrapped, stdout=f, stderr=subprocess.STDOUT, env=env, preexec_fn=_limits)
         timed_out = False; cancelled = False
         while True:
             try:
@@ -529,7 +534,9 @@ def classify_failures(pid, o, rec, known):
                 rc, out = 0, str(e)
             if rc not in (0, 4, 5) or 'runtime error' in out or 'AddressSanitizer' in out:
                 outcome['violations'].append(dict(desc=desc + ' (native replay confirms: ' + (out.strip().split('\n')[-1][:120] if out.strip() else str(rc)) + ')', replay=path, obligation=o.name))
-            elif 'pointer' in desc and 'overflow' in desc or 'pointer relation' in desc or 'pointer arithmetic' in desc:
+            elif ('pointer' in desc and 'overflow' in desc) or 'pointer relation' in desc or 'pointer arithmetic' in desc or re.search(r'overflow on signed - in \(u8 \*\)', desc):
+                # standard-level pointer UB in CBMC's object model (e.g. difference of pointers it places in different objects) that no
+                # sanitizer confirms: reported separately, never as a violation (DESIGN 1.3)
                 outcome['ub_notes'].append(dict(desc=desc, replay=path))
             else:
                 outcome['errors'].append('built-in check %s failed in CBMC but native sanitizer run is clean (rc=%s)' % (desc, rc))
@@ -692,7 +699,9 @@ def main():
             oc = classify_failures(pid, o, rec, known)
             violations += oc['violations']; knowns += oc['known']; ub_notes += oc['ub_notes']
             errors += ['%s: %s' % (o.name, e) for e in oc['errors']]
-            rec['outcome'] = dict(violations=len(oc['violations']), known=len(oc['known']), errors=oc['errors'])
+            rec['outcome'] = dict(violations=len(oc['violations']), known=len(oc['known']), errors=oc['errors'], ub_notes=len(oc['ub_notes']))
+            if not oc['violations'] and not oc['known'] and not oc['errors'] and oc['ub_notes']:
+                rec['verdict'] = 'SUCCESS'      # every assertion of the property holds; only unconfirmable pointer-model notes remain (listed)
         elif rec['verdict'] == 'DISAGREE':
             errors.append('%s: back ends disagree' % o.name)
         elif rec['verdict'] == 'SUCCESS' and rec.get('witness_replay') and any(rc != 0 for rc, _ in rec['witness_replay']):
@@ -704,6 +713,8 @@ def main():
         log('KNOWN-FINDING: property=%s %s' % (pid, k['entry']))
     for v in violations:
         log('VIOLATION property=%s replay=%s  (%s: %s)' % (pid, v['replay'], v['obligation'], v['desc']))
+    for u in ub_notes:
+        log('UB-NOTE (not confirmed natively, not a violation): %s' % u['desc'])
     for e in errors:
         log('MACHINERY-ERROR: ' + e)
     wall = time.time() - t0
@@ -716,7 +727,7 @@ def main():
     return 0
 
 def write_evidence(pid, tier, seed, mod, recs, violations, knowns, ub_notes, errors, wall, infos=(), st=(), hd=()):
-    os.makedirs(os.path.join(VERIF, 'evidence'), exist_ok=True)
+    os.makedirs(EVIDENCEDIR, exist_ok=True)
     meta = getattr(mod, 'META', {})
     conclusive = [r for r in recs if r['verdict'] in ('SUCCESS', 'FAILURE') and r['witness']['reached']]
     samples = [dict(obligation=r['name'], harness=r['harness'], tu=r['tu'], bound=r['bound'], what=r['desc'], unwind=r['unwind'],
@@ -748,7 +759,7 @@ def write_evidence(pid, tier, seed, mod, recs, violations, knowns, ub_notes, err
                   'stubs: std::__throw_length_error/bad_alloc/bad_array_new_length are assert(0) (reaching them is reported), ios_base::Init empty, operator new never fails (--no-malloc-may-fail)',
                   'trusted: clang-14 front end, opt-14 passes, ir2c translator (differentially self-tested each run), CBMC semantics of C'],
               wall_s=round(wall, 2), violations=len(violations))
-    with open(os.path.join(VERIF, 'evidence', pid + '.json'), 'w') as f:
+    with open(os.path.join(EVIDENCEDIR, pid + '.json'), 'w') as f:
         json.dump(ev, f, indent=1)
 
 if __name__ == '__main__':
